@@ -254,16 +254,19 @@ def sheets(ctx):
         specs.append(([(a, "none"), (b, "none")], O.SETTINGS if not ctx.quick else [(0, False, None), (1, True, None), (2, False, "#1e1e1e"), (1, False, None)]))
         if b not in fixed:
             specs.append(([(a, "none"), (b, "media")], base))
+            if not ctx.quick:
+                specs.append(([(a, "none"), (b, "supports")], [(1, True, "#1e1e1e")]))
+                specs.append(([(a, "none"), (b, "media_supports")], [(0, False, None), (2, True, None)]))
     # the recorded known findings that need three rules are exercised in both tiers (so that each listed finding is observed)
     specs.append(([("var_t", "none"), ("var_t", "none"), ("var_t_other_bg", "none")], [(2, True, "#1e1e1e")]))
     specs.append(([("var_t", "none"), ("var_t", "none"), ("star_hack", "none")], [(1, False, None)]))
     if not ctx.quick:
         V = ["var_t", "var_t_other_bg", "var_chained", "var_fallback_defined", "lit_fail", "root_literal", "html_literal", "var_html", "bg_var",
-             "star_hack", "upper_prop", "unfixable", "readable"]
+             "star_hack", "upper_prop", "unfixable", "readable", "var_both_root_first", "var_both_html_first", "repeated_after_bg"]
         for tr in itertools.product(V, repeat=3):
             if sum(1 for x in tr if x in fixed) > len({x for x in tr if x in fixed}):
                 continue
-            specs.append(([(x, "none") for x in tr], [(1, False, None), (2, True, "#1e1e1e")]))
+            specs.append(([(x, "none") for x in tr], [(1, False, None), (2, True, "#1e1e1e"), (0, True, None)]))
     return specs
 
 
